@@ -3,6 +3,7 @@
 # run the quick check of prop against that worktree, revert.  Different Cxx can run in parallel; /repo is never touched.
 P=$1; N=$2; Q=${3:-$1}; WT=/tmp/wt/$P
 cd /verif
+[ -d $WT ] || git -C /repo worktree add -q --detach $WT $(git -C /repo rev-parse HEAD)   # remove again with: git -C /repo worktree remove --force $WT
 git -C $WT diff --quiet || { echo "$WT not clean"; exit 3; }
 git -C $WT apply ${SEEDBASE:-/tmp/seed4}/$P/$N/patch.diff || { echo "$P/$N patch does not apply"; exit 3; }
 DEEPALI_SRC=$WT/src ./check $Q > /tmp/seedwt_${P}_${N}_${Q}.log 2>&1; rc=$?
